@@ -107,9 +107,9 @@ m("C05", "backup-marker-none", C,
   '''                "BACKUP = get(KEY, None)",''')
 m("C05", "backup-shared-name", C,
   '''                "BACKUP = get(KEY, __marker)",
-                BACKUP=identifier("backup_%s" % name, id(names)),''',
+                BACKUP=identifier("backup%d_%s" % (i, name), id(names)),''',
   '''                "BACKUP = get(KEY, __marker)",
-                BACKUP=identifier("backup_%s" % name, name),''')
+                BACKUP=identifier("backup%d_%s" % (i, name), name),''')
 m("C05", "no-merge-after-internal-macro", C,
   '''        return token_reset + self._merge_globals(node, template(
             "f(__stream, econtext.copy(), rcontext, "
